@@ -358,6 +358,56 @@ def _count_avoiding(cfg, src, dsts, weight, avoid_edges):
     return cfg.count_range(src, dsts, weight, avoid_edges=avoid_edges)
 
 
+def rule_report_logger(chk):
+    """The report is offered to all destinations again: it is written through the logger
+    that performed the failed delivery, whatever the current action's own logger is."""
+    ctx = chk.ctx
+    send = _send(chk)
+    lw = ctx.func("_output", "Logger.write")
+    lm = ctx.func("_action", "log_message")
+    alog = ctx.func("_action", "Action.log")
+    KEY = "__eliot_logger__"
+    problems = []
+    # 1. Logger.write hands itself to send
+    ok1 = any(send in s_.repo_targets() and s_.call is not None and len(s_.call.args) == 2 and isinstance(s_.call.args[1], ast.Name) and s_.call.args[1].id == "self"
+              for s_ in ctx.cg.sites[lw])
+    if not ok1:
+        problems.append("Logger.write does not pass itself to send() as the writing logger")
+    # 2. send puts it into the report
+    lparam = [a.arg for a in send.node.args.args][2] if len(send.node.args.args) > 2 else None
+    ok2 = False
+    for n in iter_own_nodes(send.node):
+        if isinstance(n, ast.Assign) and isinstance(n.targets[0], ast.Subscript) and isinstance(n.targets[0].slice, ast.Constant) and n.targets[0].slice.value == KEY \
+                and isinstance(n.value, ast.Name) and n.value.id == lparam:
+            ok2 = True
+    if not ok2:
+        problems.append("the report does not carry the writing logger under %s" % KEY)
+    # 3. log_message does not strip it when there is a current action
+    calls = [(n, c) for n, c, m in ctx.calls_to(lm, alog)]
+    for n, c in calls:
+        kwv = [k.value.id for k in c.keywords if k.arg is None and isinstance(k.value, ast.Name)]
+        if not kwv:
+            problems.append("log_message does not pass its fields on to Action.log")
+            continue
+        st = common.must_keys(ctx, lm, kwv[0], c)
+        if st is not None and KEY in st.absent:
+            problems.append("log_message removes %s before Action.log on every path: with a current action the report is written to that action's own logger and never reaches the registered destinations" % KEY)
+    # 4. Action.log writes through the logger given in the fields
+    cfg = ctx.cfg(alog)
+    wr = [(n, c) for n in cfg.live for c, m in calls_in_node(n) if isinstance(c.func, ast.Attribute) and c.func.attr == "write"]
+    ok4 = False
+    for n, c in wr:
+        r = c.func.value
+        if isinstance(r, ast.Name):
+            vals = assigned_values(alog, r.id)
+            ok4 = len(vals) == 1 and isinstance(vals[0], ast.Call) and isinstance(vals[0].func, ast.Attribute) and vals[0].func.attr == "pop" and vals[0].args \
+                and isinstance(vals[0].args[0], ast.Constant) and vals[0].args[0].value == KEY and len(vals[0].args) == 2 and common.is_self_attr(vals[0].args[1], "_logger")
+    if not ok4:
+        problems.append("Action.log does not write through fields.pop(%r, self._logger)" % KEY)
+    chk.req(not problems, "C08.report", "send:report-written-through-the-failing-logger", chk.where(send),
+            good="Logger.write -> send(message, self) -> report[%s] -> log_message -> Action.log pops it and writes through it" % KEY, fail="; ".join(problems), sites=4)
+
+
 def rule_guard(chk):
     send = _send(chk)
     ok, detail = guard_cut(chk)
@@ -437,6 +487,7 @@ def rule_later(chk):
 def run(chk):
     rule_fanout(chk)
     rule_report(chk)
+    rule_report_logger(chk)
     rule_guard(chk)
     rule_who(chk)
     rule_later(chk)
